@@ -71,13 +71,18 @@ def main():
         else:
             pop = 'explore_chords' if 'explore_chords' in (case.get('tags') or []) else 'main'
             sess = [dp.sess_c01(case['seed'], profile=pop)]
+            if pop == 'explore_chords':
+                sess[0]['case_id'] = f"explore_chords:{case['seed']}"
     else:
         sess = docs.build_sessions(sess_tokens, range((len(toks) + 39) // 40))
-        pops = [('main', 220 if quick else 5000, {}), ('explore_chords', 40 if quick else 500, {'profile': 'explore_chords'})]
+        pops = [('main', 220 if quick else 5000, {}), ('explore_chords', 40 if quick else 300, {'profile': 'explore_chords'})]
         for k, (label, n, kw) in enumerate(pops):
-            part = docs.build_sessions(dp.sess_c01, [a.seed * 1000003 + k * 100000007 + i for i in range(n)], **kw)
+            fixed = label == 'explore_chords'          # a fixed corpus: its failing cases are listed one by one in known_findings.json
+            part = docs.build_sessions(dp.sess_c01, [(777000000 + i) if fixed else (a.seed * 1000003 + k * 100000007 + i) for i in range(n)], **kw)
             for s in part:
                 s['tags'] = list(s['tags']) + [label]
+                if fixed:
+                    s['case_id'] = f"{label}:{s['seed']}"
             sess += part
             run.note('population_' + label, n)
         docs.selftest_session(next(s for s in sess if len(s['log']) > 10 and 'main' in s['tags']))
